@@ -94,7 +94,7 @@ def run_job(job):
             # must still differ as soon as the password, the user (credential id) or the server differs
             base_users = [("alice", b"same password for everybody"), ("alicf", b"same password for everybody"), ("alice", b"same password for everybodz"),
                           ("P" * 57 + "alice", b"same password for everybody"), ("P" * 57 + "bob", b"same password for everybody"),
-                          ("Q" * 25 + "A", b"pw"), ("Q" * 25 + "B", b"pw"), ("R" * 41 + "A", b"pw"), ("R" * 41 + "B", b"pw"), ("S" * 200 + "A", b"pw"), ("S" * 200 + "B", b"pw")]
+                          ("Q" * 25 + "A", b"pw"), ("Q" * 25 + "B", b"pw"), ("R" * 41 + "A", b"pw"), ("R" * 41 + "B", b"pw"), ("S" * 200 + "A", b"pw"), ("S" * 200 + "B", b"pw"), ("carol", b"pw"), ("carol\n", b"pw"), (" carol", b"pw"), ("carol ", b"pw"), ("", b"pw"), (" ", b"pw")]
             same_tape = []
             for u, pw in base_users:
                 for srv in ("S1", "S2"):
